@@ -114,8 +114,8 @@ Proof. intros sc items k. split; [apply unknown_unscored_l|intro i; apply known_
 Print Assumptions unknown_unscored.
 
 (* the count of item i is the number of its log rows whose instant (seconds rep t) is strictly after the
-   cutoff, for integer-second and for date-time typed (nanosecond) timestamps *)
-Theorem time_bounded_counts_after_cutoff : forall ni rep cutoff log,
+   cutoff, for numeric seconds (integer or float) and for date-time typed timestamps of any resolution *)
+Theorem time_bounded_counts_after_cutoff : forall ni rep cutoff log, rep_ok rep ->
   length (tb_counts ni rep cutoff log) = ni /\
   forall i, (i < ni)%nat ->
     nth i (tb_counts ni rep cutoff log) 0%nat
@@ -123,8 +123,10 @@ Theorem time_bounded_counts_after_cutoff : forall ni rep cutoff log,
 Proof. exact time_bounded_counts_l. Qed.
 Print Assumptions time_bounded_counts_after_cutoff.
 
-Theorem time_representation_irrelevant : forall ni cutoff (log : list (nat * Z)),
-  tb_counts ni TDate cutoff (map (fun e => (fst e, (snd e * 1000000000)%Z)) log) = tb_counts ni TInt cutoff log.
+(* "whichever representation the timestamps have": the same instants stored date-time typed with r ticks
+   per second (any r > 0: s, ms, us, ns) give exactly the counts of the numeric-seconds representation *)
+Theorem time_representation_irrelevant : forall ni cutoff r (log : list (nat * Q)), 0 < r ->
+  tb_counts ni (TDate r) cutoff (map (fun e => (fst e, snd e * r)) log) = tb_counts ni TNum cutoff log.
 Proof. exact time_repr_irrelevant_l. Qed.
 Print Assumptions time_representation_irrelevant.
 
@@ -142,7 +144,8 @@ Example c08_nonvacuous :
   quantile_ok_b Qeq_bool [2; 1; 1; 0]%nat [Some 1; Some (1 # 4); Some (1 # 2); Some 0] = true /\
   quantile_ok_b Qeq_bool [2; 1; 1; 0]%nat [Some 1; Some (1 # 2); Some (1 # 4); Some 0] = true /\
   quantile_ok_b Qeq_bool [2; 1; 1; 0]%nat [Some 1; Some (1 # 2); Some (1 # 2); Some 0] = false /\
-  tb_counts 2 TDate (3 # 2) [(0%nat, 1000000000%Z); (0%nat, 2000000000%Z); (1%nat, 1500000000%Z)] = [1; 0]%nat.
+  tb_counts 2 (TDate 1000) (3 # 2) [(0%nat, 1000); (0%nat, 2000); (1%nat, 1500)] = [1; 0]%nat /\
+  tb_counts 2 TNum (3 # 2) [(0%nat, 1); (0%nat, 5 # 2); (1%nat, 3 # 2)] = [1; 0]%nat.
 Proof.
   cbv zeta. split; [vm_compute; reflexivity|].
   split; [eexists; split; [reflexivity|]; vm_compute; intuition discriminate|].
